@@ -105,9 +105,11 @@ class Individual(metaclass=ABCMeta):
         return string
 
     def __eq__(self, other):
-        diff = 1
+        if len(self.vector) == 0:
+            return False
+        diff = 0.0
         for i in range(len(self.vector)):
-            diff = abs(self.vector[i] - other.vector[i])
+            diff = max(diff, abs(self.vector[i] - other.vector[i]))
         return diff < 1e-10
 
     def __hash__(self):
